@@ -306,7 +306,8 @@ class Scheduler:
 class Lock:
     """FIFO lock; suspends on contention (and optionally when uncontended)."""
 
-    def __init__(self, ctx, name="lock", suspend_uncontended=False):
+    def __init__(self, ctx, name="lock", suspend_uncontended=False, release_susp=False):
+        self.release_susp = release_susp  # releasing is a suspension point (like a distributed lock)
         self.ctx = ctx
         self.name = name
         self.locked = False
@@ -344,15 +345,17 @@ class Lock:
         self.locked = False
         self.owner = None
         self.released += 1
+        if self.release_susp:
+            await self.ctx.suspend((self.name, "release"))
         return None
 
 
-def lock_type(ctx, name="plock", suspend_uncontended=False):
+def lock_type(ctx, name="plock", suspend_uncontended=False, release_susp=False):
     """A *class* usable as ``cached_property(LockType)``; instances are Lock doubles."""
 
     class LockType(Lock, typing.AsyncContextManager):
         def __init__(self):
-            Lock.__init__(self, ctx, f"{name}{len(ctx.locks)}", suspend_uncontended)
+            Lock.__init__(self, ctx, f"{name}{len(ctx.locks)}", suspend_uncontended, release_susp)
 
     return LockType
 
